@@ -97,7 +97,7 @@ type PeerOp struct {
 
 // PeerPolicy: how a raw peer reacts to what the gateway sends.
 type PeerPolicy struct {
-	Register   string `json:"register,omitempty"`  // "accept" (default) | "reject" | "ignore"
+	Register   string `json:"register,omitempty"`  // "accept" (default) | "reject" | "ignore" | "accept-stale-id" (REGACK names another id)
 	Puback     string `json:"puback,omitempty"`    // "accept" (default) | "reject" | "ignore"
 	QoS2       string `json:"qos2,omitempty"`      // "full" (default) | "ignore" | "norel"(PUBREC only)
 	Will       string `json:"will,omitempty"`      // "answer" (default) | "ignore"
